@@ -99,17 +99,20 @@ UNIT = {
          "sig_rewrites": [("X4", r"chars: impl Iterator<Item = char>\) -> bool",
                            "chars: core::str::Chars<'_>) -> (r: bool)")],
          "call_site_check": {"file": "src/repl.rs", "pattern": r"check_bracket_closed\(source\.chars\(\)\)"},
+         # rule B1: the names of the three locals the invariant mentions are read from the code
+         "bind": {"COUNT": (r"let mut (\w+) = 0;", "count"), "STATE": (r"let mut (\w+) = ScanState::Code;", "state"),
+                  "C": (r"for (\w+) in chars", "c")},
          "contract": """    requires chars.obeys_prophetic_iter_laws(), chars.decrease() is Some,
         chars.remaining().len() < i32::MAX,
     ensures r == complete(chars.remaining()),""",
          "loops": {1: {"expect_kw": "for",
                        "iter_name": "it",
                        "invariant": """        invariant
-            (count as int, mode_of(state)) == run(it.history()),
+            (${COUNT} as int, mode_of(${STATE})) == run(it.history()),
             it.seq().len() < i32::MAX,
             it.seq() == chars.remaining(),
             it.history().len() == it.seq().len() ==> it.history() == it.seq(),""",
-                       "body_start": "        proof { lemma_run_bound(it.history()); assert(it.history().push(c).drop_last() =~= it.history()); }"}},
+                       "body_start": "        proof { lemma_run_bound(it.history()); assert(it.history().push(${C}).drop_last() =~= it.history()); }"}},
          },
     ],
     "spec": SPEC,
